@@ -147,7 +147,27 @@ let show_verdict = function
       | _ -> "fails:-")
   | FailsUnknown -> "fails:-"
 
+(* cross-check stream for the trusted transcription of the ledger's orders: `ord <type> <a> <b> <lt|gt|eq>` (hand-written
+   vectors, corpus/C10/ledger-orders.case) and `lock <kind> <script> <0|1>` for the certificate table; the model result is what
+   the SPEC functions of PointersSpec.v say *)
+let cmp3 ltb a b = if ltb a b then "lt" else if ltb b a then "gt" else "eq"
+let ord_case (toks : string list) : (string * string) option =
+  match toks with
+  | ["ord"; ty; a; b; expected] ->
+    let got = (match ty with
+        | "txin" -> cmp3 outpoint_ledger_ltb (parse_outpoint a) (parse_outpoint b)
+        | "policy" -> cmp3 policy_ledger_ltb (bytes_of_hex a) (bytes_of_hex b)
+        | "racct" -> cmp3 racct_ledger_ltb (parse_racct a) (parse_racct b)
+        | "voter" -> cmp3 voter_ledger_ltb (parse_voter a) (parse_voter b)
+        | _ -> failwith "ord: type") in
+    Some ("ord " ^ got, if got = expected then "holds" else "fails:-")
+  | ["lock"; kind; script; expected] ->
+    let got = sb (ledger_cert_script_locked { c_kind = n_of_string kind; c_script = b01 script; c_id = n_of_int 0 }) in
+    Some ("lock " ^ got, if got = expected then "holds" else "fails:-")
+  | _ -> None
+
 let () = run_driver (fun toks impl ->
+  match ord_case toks with Some r -> r | None ->
   (* inputs selected by add_inputs_from count as further add-key-input calls (coin selection itself is not C10's subject) *)
   let sel = parse_selected impl in
   let ops = parse_ops toks @ List.map (fun o -> OpIn (InKey o)) sel in
